@@ -142,6 +142,34 @@ def items(tier):
                 out.append(dict(kind="history", id="n2-%s-patternchange-%s-to-%s" % (mclass, "".join("%d%d" % tuple(p) for p in za) or "none",
                                                                                       "".join("%d%d" % tuple(p) for p in zb) or "none"),
                                 n=2, mclass=mclass, zeros=za, zeros2=zb, hist=hname, tol=0))
+    # the same histories with SPARSE matrices of one fixed structure (every position a stored entry, zeros stored explicitly):
+    # shape and nnz never change, the zero pattern - and with it the set of decoupled dofs - does
+    for mclass in ("general", "symmetric"):
+        for za, zb in (([[0, 1], [1, 0]], []), ([[0, 1]], [[1, 0]]), ([], [[0, 1], [1, 0]]), ([[0, 1], [1, 0]], [[0, 1], [1, 0]])):
+            if mclass == "symmetric":
+                if za == [[0, 1]]:
+                    continue
+                za, zb = [p for p in za if p[0] < p[1]], [p for p in zb if p[0] < p[1]]
+            out.append(dict(kind="history", id="n2-%s-sparse-patternchange-%s-to-%s" % (mclass, "".join("%d%d" % tuple(p) for p in za) or "none",
+                                                                                       "".join("%d%d" % tuple(p) for p in zb) or "none"),
+                            n=2, mclass=mclass, zeros=za, zeros2=zb, hist="update", tol=0, sparse=True))
+        for hname in ("rep-scale", "NTH") + (() if q else ("sum", "block2", "zero", "update-adj")):
+            out.append(dict(kind="history", id="n2-%s-sparse-znone-%s" % (mclass, hname), n=2, mclass=mclass, zeros=[], hist=hname,
+                            tol=0, sparse=True))
+    # the matrix handed over as constructor argument LDAWrapper(solver, A=A) (no separate update() call)
+    for mclass, zp in (("general", []), ("general", [[0, 1], [1, 0]]), ("general", [[0, 1]]), ("symmetric", [[0, 1]])):
+        for hname in ("rep-scale", "NTH"):
+            out.append(dict(kind="history", id="n2-%s-z%s-%s-ctorA" % (mclass, "".join("%d%d" % tuple(p) for p in zp) or "none", hname),
+                            n=2, mclass=mclass, zeros=zp, hist=hname, tol=0, ctor_A=True))
+    out.append(dict(kind="history", id="n3-general-z02201221-ctorA", n=3, mclass="general", zeros=[[0, 2], [2, 0], [1, 2], [2, 1]],
+                    hist=[["N", "new"], ["N", "repeat"], ["N", "scale"]], tol=0, ctor_A=True, timeout=400))
+    out.append(dict(kind="history", id="n2-general-sparse-z0110-rep-scale-ctorA", n=2, mclass="general", zeros=[[0, 1], [1, 0]],
+                    hist="rep-scale", tol=0, ctor_A=True, sparse=True))
+    # three dofs, sparse, one dof decoupled in the first matrix only (and the reverse)
+    for za, zb, tag in (() if q else (([[0, 2], [2, 0], [1, 2], [2, 1]], [], "dof2-coupled-later"),
+                                      ([], [[0, 2], [2, 0], [1, 2], [2, 1]], "dof2-decoupled-later"))):     # (3 min per item: thorough tier)
+        out.append(dict(kind="history", id="n3-general-sparse-patternchange-%s" % tag, n=3, mclass="general", zeros=za, zeros2=zb,
+                        hist=[["N", "new"], ["update", None], ["N", "new"], ["N", "repeat"]], tol=0, sparse=True, timeout=400))
     for which in ("herm-block+complex-diagonal", "sym-block+complex-diagonal"):
         out.append(dict(kind="flags", id="flags-n3-%s" % which, n=3, which=which))
     # LinSolve handing class flags to the wrapper it creates (the user's flags must not be turned into untrue ones)
@@ -206,6 +234,22 @@ def build_matrix(V, cfg, name):
         assume_nonsingular(V, A, name)
         return wrap(A)
     return A
+
+
+def _as_input(V, cfg, A):
+    """The matrix object handed to update(): the dense array, or (cfg["sparse"]) a sparse matrix of the same values in which
+    EVERY position is a stored entry (explicitly stored zeros: two matrices of one structure have the same shape and nnz,
+    whatever their zero pattern - the situation of an assembled FE matrix whose couplings vanish for some design)."""
+    if not cfg.get("sparse"):
+        return A
+    if V.symbolic:
+        from symx.spshim import SymSparse
+        return SymSparse(np.asarray(A))
+    import scipy.sparse as sps
+    Ad = np.asarray(A)
+    n = Ad.shape[0]
+    rows, cols = np.meshgrid(np.arange(n), np.arange(n), indexing="ij")
+    return sps.csc_matrix((Ad.flatten(), (rows.flatten(), cols.flatten())), shape=Ad.shape)
 
 
 def op(A, trans):
@@ -365,8 +409,12 @@ def scenario(V, P, cfg):
         inner = ContractSolver()
     else:
         inner = _CountingAuto()
-    w = LDAWrapper(inner, tol=tolv)
-    w.update(A)
+    if cfg.get("ctor_A"):
+        # the matrix arrives through the constructor argument (LinearSolver.__init__ calls update(A) itself)
+        w = LDAWrapper(inner, tol=tolv, A=_as_input(V, cfg, A))
+    else:
+        w = LDAWrapper(inner, tol=tolv)
+        w.update(_as_input(V, cfg, A))
     obs = {}
     solved = []          # (trans, b, xpre) of the current matrix
     nupd = 1
@@ -388,7 +436,7 @@ def scenario(V, P, cfg):
             continue
         if trans == "update":
             A = build_matrix(V, cfg, "B")
-            w.update(A)
+            w.update(_as_input(V, cfg, A))
             nupd += 1
             if P is not None:
                 P.holds("stores-cleared-after-update", len(w.x_stored) == 0 and len(w.b_stored) == 0 and
